@@ -1,0 +1,123 @@
+//go:build verif
+
+// Contracts for package samlsp, read by /verif/engine (govc). This file contains only a
+// package clause and structured comments; it is excluded from normal builds.
+package samlsp
+
+//@ -- ------------------------------------------------------------------------------------------
+//@ -- C16: only session tokens minted by this SP authenticate
+
+//@ go func sessionClaims(s Session) JWTSessionClaims { c, _ := s.(JWTSessionClaims); return c }
+//@ go func isSessionClaims(s Session) bool { _, ok := s.(JWTSessionClaims); return ok }
+
+//@ contract (JWTSessionCodec).Decode
+//@ requires[cfg] cfg: c.SigningMethod != nil && c.Key != nil
+//@ ensures[C16] nil_iff_err: (result == nil) == (err != nil)
+//@ -- exactly one allowed signing method: the codec's own
+//@ assert@call[C16] ParseWithClaims #1 (p *jwt.Parser, token string) allowed_methods:
+//@    p != nil && len(p.ValidMethods) == 1 && p.ValidMethods[0] == c.SigningMethod.Alg() && token == signed
+//@ -- success only after the library accepted the token AND audience, issuer and the session marker match
+//@ ensures[C16] audience: err == nil ==> isSessionClaims(result) && sessionClaims(result).Audience == c.Audience && c.Audience != ""
+//@ ensures[C16] issuer: err == nil ==> sessionClaims(result).Issuer == c.Issuer && c.Issuer != ""
+//@ ensures[C16] marker: err == nil ==> sessionClaims(result).SAMLSession
+
+//@ contract (JWTSessionCodec).New
+//@ requires[cfg] a: assertion != nil
+//@ ensures[C16] ok: err == nil && isSessionClaims(result)
+//@ -- the lifetime is fixed at mint time: exp = now + MaxAge, iat = nbf = now
+//@ ensures[C16] lifetime: sessionClaims(result).ExpiresAt == saml.TimeNow().Add(c.MaxAge).Unix() &&
+//@    sessionClaims(result).IssuedAt == saml.TimeNow().Unix() && sessionClaims(result).NotBefore == saml.TimeNow().Unix()
+//@ ensures[C16] scope: sessionClaims(result).SAMLSession && sessionClaims(result).Audience == c.Audience && sessionClaims(result).Issuer == c.Issuer
+//@ ensures[C16] subject: assertion.Subject != nil && assertion.Subject.NameID != nil ==> sessionClaims(result).Subject == assertion.Subject.NameID.Value
+
+//@ contract (CookieSessionProvider).GetSession
+//@ requires[cfg] r: r != nil && c.Codec != nil
+//@ -- a session comes only from decoding the cookie with the configured name
+//@ assert@call[C16] Decode #1 (codec SessionCodec, signed string) uses cookie *http.Cookie decodes_named_cookie:
+//@    cookie != nil && cookie.Name == c.Name && signed == cookie.Value
+//@ ensures[C16] session_only_without_error: result != nil ==> err == nil
+
+//@ contract (CookieSessionProvider).CreateSession
+//@ requires[cfg] r: r != nil && r.URL != nil && c.Codec != nil
+//@ -- C17: the session cookie keeps the configured HttpOnly flag and is Secure on https
+//@ assert@call[C17] SetCookie #1 (w2 http.ResponseWriter, ck *http.Cookie) cookie_flags:
+//@    ck != nil && ck.HttpOnly == c.HTTPOnly && ck.Secure == (c.Secure || r.URL.Scheme == "https") && ck.Name == c.Name
+
+//@ -- ------------------------------------------------------------------------------------------
+//@ -- C17: tracking tokens
+
+//@ contract (JWTTrackedRequestCodec).Decode
+//@ requires[cfg] cfg: s.SigningMethod != nil && s.Key != nil
+//@ ensures[C17] nil_iff_err: (result == nil) == (err != nil)
+//@ assert@call[C17] ParseWithClaims #1 (p *jwt.Parser, token string) allowed_methods:
+//@    p != nil && len(p.ValidMethods) == 1 && p.ValidMethods[0] == s.SigningMethod.Alg() && token == signed
+//@ -- a tracked request is returned only for tokens carrying the tracking marker (a session token is not one)
+//@ assert@store[C17] Index #1 uses claims JWTTrackedRequestClaims only_marked_tokens:
+//@    claims.SAMLAuthnRequest && claims.Issuer == s.Issuer && s.Issuer != ""
+
+//@ contract (JWTTrackedRequestCodec).Encode
+//@ -- the tracking lifetime is fixed at mint time: exp = now + MaxAge
+//@ assert@call[C17] NewWithClaims #1 (m jwt.SigningMethod, cl jwt.Claims) lifetime:
+//@    trackedClaims(cl).ExpiresAt == jwt.NewNumericDate(saml.TimeNow().Add(s.MaxAge)) && trackedClaims(cl).SAMLAuthnRequest &&
+//@    trackedClaims(cl).Subject == value.Index && trackedClaims(cl).Issuer == s.Issuer
+//@ go func trackedClaims(c jwt.Claims) JWTTrackedRequestClaims { x, _ := c.(JWTTrackedRequestClaims); return x }
+
+//@ contract DefaultTrackedRequestCodec
+//@ ensures[C17] lifetime: result.MaxAge == saml.MaxIssueDelay
+
+//@ contract DefaultRequestTracker
+//@ ensures[C17] lifetime: result.MaxAge == saml.MaxIssueDelay && result.ServiceProvider == serviceProvider
+
+//@ contract DefaultSessionProvider
+//@ ensures[C17] flags: result.HTTPOnly && result.Secure == (opts.URL.Scheme == "https")
+
+//@ contract (CookieRequestTracker).GetTrackedRequest
+//@ requires[cfg] r: r != nil && t.Codec != nil
+//@ ensures[C17] nil_iff_err: (result == nil) == (err != nil)
+//@ ensures[C17] index: err == nil ==> result.Index == index
+//@ assert@call[C17] Decode #1 (codec TrackedRequestCodec, signed string) uses cookie *http.Cookie decodes_named_cookie:
+//@    cookie != nil && cookie.Name == t.NamePrefix+index && signed == cookie.Value
+
+//@ contract (CookieRequestTracker).TrackRequest
+//@ requires[cfg] r: r != nil && r.URL != nil && t.Codec != nil && t.ServiceProvider != nil
+//@ -- the tracking cookie is named after the index it carries, scoped to the ACS path, HttpOnly, with the tracker's lifetime
+//@ assert@call[C17] SetCookie #1 (w2 http.ResponseWriter, ck *http.Cookie) uses trackedRequest TrackedRequest tracking_cookie:
+//@    ck != nil && ck.Name == t.NamePrefix+trackedRequest.Index && ck.Path == t.ServiceProvider.AcsURL.Path && ck.HttpOnly &&
+//@    trackedRequest.SAMLRequestID == samlRequestID
+//@ assert@call[C17] Encode #1 (codec TrackedRequestCodec, v TrackedRequest) encodes_this_request:
+//@    v.SAMLRequestID == samlRequestID && v.URI == r.URL.String()
+
+//@ contract (CookieRequestTracker).GetTrackedRequests
+//@ requires[cfg] r: r != nil && t.Codec != nil
+
+//@ -- ------------------------------------------------------------------------------------------
+//@ -- the middleware handlers
+
+//@ go func middlewareConfigured(m *Middleware) bool {
+//@    return m.OnError != nil && m.RequestTracker != nil && m.Session != nil && m.AssertionHandler != nil }
+
+//@ contract (*Middleware).ServeACS
+//@ requires[cfg] m: middlewareConfigured(m)
+//@ requires[cfg] r: r != nil && r.URL != nil
+//@ requires[cfg] sp: m.ServiceProvider.IDPMetadata != nil
+//@ loop 1 vars possibleRequestIDs []string, trackedRequests []TrackedRequest
+//@ invariant[C04,C17] only_tracked: forall(0, len(possibleRequestIDs), func(k int) bool {
+//@    return (possibleRequestIDs[k] == "" && m.ServiceProvider.AllowIDPInitiated) ||
+//@      exists(0, len(trackedRequests), func(j int) bool { return trackedRequests[j].SAMLRequestID == possibleRequestIDs[k] }) })
+//@ -- the outstanding IDs handed to the SP are exactly: "" when IdP-initiated login is allowed, plus IDs from the tracker
+//@ assert@call[C04,C17] ParseResponse #1 (sp *saml.ServiceProvider, rq *http.Request, ids []string) uses trackedRequests []TrackedRequest ids_from_tracker:
+//@    forall(0, len(ids), func(k int) bool {
+//@      return (ids[k] == "" && m.ServiceProvider.AllowIDPInitiated) ||
+//@        exists(0, len(trackedRequests), func(j int) bool { return trackedRequests[j].SAMLRequestID == ids[k] }) })
+
+//@ contract (*Middleware).CreateSessionFromAssertion
+//@ requires[cfg] m: middlewareConfigured(m)
+//@ requires[cfg] r: r != nil && r.URL != nil
+//@ -- with IdP-initiated login off: a session is created and the browser redirected only if no RelayState came back
+//@ -- (default target) or the tracker produced the tracked request named by RelayState (its recorded URI)
+//@ assert@call[C17] CreateSession #1 (sess SessionProvider, w2 http.ResponseWriter, rq *http.Request, a *saml.Assertion) uses target=redirectURI string session_only_for_tracked_flow:
+//@    a == assertion && (m.ServiceProvider.AllowIDPInitiated || r.Form.Get("RelayState") == "" || TrackedURI(m.RequestTracker, r, r.Form.Get("RelayState"), target))
+
+//@ contract randomBytes
+//@ trusted
+//@ ensures[C17] length: len(result) == n
